@@ -368,7 +368,7 @@ func main() {
 	seenKey := map[string]bool{}
 	exit := 0
 	nviol := 0
-	var knownLines, violLines []string
+	var knownLines, violLines, unconfirmed []string
 	sort.SliceStable(viols, func(a, b int) bool { return len(viols[a].v.Replay) < len(viols[b].v.Replay) })
 	for _, vb := range viols {
 		v := vb.v
@@ -397,7 +397,9 @@ func main() {
 			confirmed = 5
 		}
 		if confirmed != 5 {
-			fatal("violation %q reproduced %d/5 times from %s: nondeterministic harness, not reported as a violation", v.Key, confirmed, rpath)
+			// never reported as a violation; fatal (exit 2) unless some other violation of this run is confirmed
+			unconfirmed = append(unconfirmed, fmt.Sprintf("violation %q reproduced %d/5 times from %s: nondeterministic harness, not reported as a violation", v.Key, confirmed, rpath))
+			continue
 		}
 		if desc, ok := kf.known[id+"\x00"+v.Key]; ok {
 			knownLines = append(knownLines, "KNOWN-FINDING: "+desc)
@@ -409,6 +411,13 @@ func main() {
 		if len(violLines) < 10 {
 			violLines = append(violLines, fmt.Sprintf("VIOLATION property=%s replay=%s\n  key=%s\n  %s", id, rpath, v.Key, strings.ReplaceAll(v.Detail, "\n", "\n  ")))
 		}
+	}
+
+	if len(unconfirmed) > 0 && nviol == 0 {
+		fatal("%s", strings.Join(unconfirmed, "; "))
+	}
+	for _, u := range unconfirmed {
+		fmt.Fprintln(os.Stderr, "UNCONFIRMED (ignored): "+u)
 	}
 
 	// Evidence.
